@@ -196,8 +196,11 @@ DoCanaryJump(s) ==
 ExpectedAll(s) == FullPartitionStep(s, s.ro.step)
 
 \* runCanary, partition / canary style (rollout_canary.go)
-RunCanary(s0) ==
-  LET \* syncBatchRelease: propagate the rollout-id to the BatchRelease
+RunCanaryBody(sIn) ==
+  LET \* handleNormalRolling: an illegal user-patched nextStepIndex is corrected first (CheckNextBatchIndexWithCorrect,
+      \* effective on the status the release manager works on since fix: FX-C09-next-index-correction)
+      s0 == IF sIn.ro.next <= 0 \/ sIn.ro.next > N(sIn) THEN [sIn EXCEPT !.ro.next = NextIdx(sIn, sIn.ro.step)] ELSE sIn
+      \* syncBatchRelease: propagate the rollout-id to the BatchRelease
       s1 == IF s0.br.exists /\ s0.ro.rid # s0.br.rid
             THEN [s0 EXCEPT !.br.rid = s0.ro.rid, !.br.obsGenOk = FALSE, !.br.hashOk = FALSE] ELSE s0
       s  == IF s1.ro.podHash = 0 THEN [s1 EXCEPT !.ro.podHash = s1.wl.updRev] ELSE s1
@@ -240,6 +243,13 @@ RunCanary(s0) ==
          THEN [t EXCEPT !.ro.step = k + 1, !.ro.next = NextIdx(t, k + 1), !.ro.state = "BeforeStepUpgrade", !.ro.fresh = TRUE]
          ELSE [t EXCEPT !.ro.state = "Completed", !.ro.fresh = TRUE]
     [] OTHER -> t
+
+\* The correction is made on the in-memory object the status comparison also uses, so it is persisted only together
+\* with some other status change of the same reconcile.
+RunCanary(sIn) ==
+  LET r == RunCanaryBody(sIn)
+      corrected == IF sIn.ro.next <= 0 \/ sIn.ro.next > N(sIn) THEN [sIn.ro EXCEPT !.next = NextIdx(sIn, sIn.ro.step)] ELSE sIn.ro
+  IN  IF r.ro = corrected THEN [r EXCEPT !.ro.next = sIn.ro.next] ELSE r
 
 \* finalising task orders (rollout_canary.go nextCanaryTask)
 TaskSeq(reason) ==
@@ -588,25 +598,27 @@ Release(s, rev) ==
   IF rev = s.wl.specRev THEN s
   ELSE IF WebhookHolds(s) THEN [s1 EXCEPT !.wl.ktype = HoldKnob(s).ktype, !.wl.kval = HoldKnob(s).kval, !.wl.inprog = TRUE] ELSE s1
 
+JumpActs == {"user.jump:1", "user.jump:2", "user.jump:3", "user.jump:4", "user.jump:5", "user.jump:0", "user.jump:-2"}
+JumpTargetOf(a) == CASE a = "user.jump:1" -> 1 [] a = "user.jump:2" -> 2 [] a = "user.jump:3" -> 3 [] a = "user.jump:4" -> 4
+                     [] a = "user.jump:5" -> 5 [] a = "user.jump:0" -> 0 [] OTHER -> 0 - 2
 UserSet(s, a) ==
   CASE a = "user.approve" -> {[s EXCEPT !.ro.state = "StepReady"]}
     [] a = "user.pause"   -> {[s EXCEPT !.user.paused = TRUE]}
     [] a = "user.resume"  -> {[s EXCEPT !.user.paused = FALSE]}
     [] a = "user.disable" -> {[s EXCEPT !.user.disabled = TRUE]}
     [] a = "user.enable"  -> {[s EXCEPT !.user.disabled = FALSE]}
-    [] a = "user.delete"  -> {IF s.ro.finalizer THEN [s EXCEPT !.user.deleted = TRUE, !.ro.deleting = TRUE]
+    [] a \in {"user.delete", "user.deleteidle"} -> {IF s.ro.finalizer THEN [s EXCEPT !.user.deleted = TRUE, !.ro.deleting = TRUE]
                               ELSE [s EXCEPT !.user.deleted = TRUE, !.ro = GoneRo]}
     [] a = "user.release2" -> {Release(s, 2)}
     [] a = "user.release3" -> {Release(s, 3)}
     [] a = "user.rollback" -> {[Release(s, 1) EXCEPT !.user.rolledBack = TRUE]}
     [] a = "user.scale"    -> {[s EXCEPT !.wl.R = r, !.wl.genOk = FALSE] : r \in (1..12) \ {s.wl.R}}
-    [] a \in {"user.jump:1", "user.jump:2", "user.jump:3", "user.jump:4"} ->
-         {[s EXCEPT !.ro.next = CASE a = "user.jump:1" -> 1 [] a = "user.jump:2" -> 2 [] a = "user.jump:3" -> 3 [] OTHER -> 4]}
+    [] a \in JumpActs -> {[s EXCEPT !.ro.next = JumpTargetOf(a)]}
     [] OTHER -> {s}
 
 \* ------------------------------------------------------------ the step function
-UserActs == {"user.approve", "user.pause", "user.resume", "user.disable", "user.enable", "user.delete", "user.release2",
-             "user.release3", "user.rollback", "user.scale", "user.jump:1", "user.jump:2", "user.jump:3", "user.jump:4"}
+UserActs == {"user.approve", "user.pause", "user.resume", "user.disable", "user.enable", "user.delete", "user.deleteidle", "user.release2",
+             "user.release3", "user.rollback", "user.scale"} \cup JumpActs
 EnvActs  == {"env.observe", "env.update", "env.ready", "env.unready", "env.scale"}
 
 Modelled(p, a) ==
@@ -614,8 +626,16 @@ Modelled(p, a) ==
   /\ a \in {"ro", "br", "tick"} \cup EnvActs \cup UserActs
 
 \* successor set of one action (singletons for the deterministic controller reconciles)
+\* Deliberate deviation: whether a reconcile that changes nothing but status MESSAGES writes the status is not modelled
+\* (messages are not part of the abstract state); such a write also persists the corrected nextStepIndex.
+RoStepSet(p) ==
+  LET r == RoStep(p) IN
+  IF /\ p.ro.exists /\ r.ro.exists /\ p.ro.hasSub /\ p.ro.phase = "Progressing" /\ p.ro.reason = "InRolling"
+     /\ (p.ro.next <= 0 \/ p.ro.next > N(p)) /\ r.ro.next = p.ro.next
+  THEN {r, [r EXCEPT !.ro.next = NextIdx(p, p.ro.step)]} ELSE {r}
+
 StepSet(p, a) ==
-  CASE a = "ro" -> {RoStep(p)}
+  CASE a = "ro" -> RoStepSet(p)
     [] a = "br" -> {BrStep(p)}
     [] a = "tick" -> {TickStep(p)}
     [] a \in EnvActs -> EnvSet(p, a)
